@@ -127,6 +127,7 @@ type runner struct {
 	expIdx    map[string]int // "<shard>/<id>" -> k
 	nExp      int
 	gidExport map[uint64]int
+	nSynth    int
 	held      map[int]*heldExport
 	heldOrder []int
 	spanCtx   map[trace.SpanID]string // request span -> ctx name
@@ -516,6 +517,13 @@ func (k *sink) consume(ctx context.Context, data any) error {
 	gid := curGID()
 	r.mu.Lock()
 	e := r.gidExport[gid]
+	if e == 0 {
+		// the next consumer is called from a goroutine that never passed the ExportStart hook (not the export goroutine
+		// of sendItems): the call still is an export of its own - give it an identity so that it can be held, released
+		// and judged like any other
+		r.nSynth++
+		e = 1000 + r.nSynth
+	}
 	if span.SpanContext().IsValid() {
 		r.expSpan[span.SpanContext().SpanID()] = e
 	}
